@@ -1,6 +1,5 @@
 """C39 Fluent operator methods equal their piped operators."""
 import inspect
-import signal
 import time
 
 import reactivex.operators as ops_mod
@@ -9,6 +8,7 @@ from reactivex.observable import mixins
 
 from props.c44 import Captured, Hole
 from simlib import catalog, pipe, vt
+from simlib import core
 from simlib.core import Hang, Outcome
 
 
@@ -95,7 +95,7 @@ class Prop:
     rule = ("seeded pipelines (depth 1-3) are built twice on twin worlds with identical timelines: once through the catalogue's piped form "
             "source.pipe(ops.name(args)) and once by calling the same-named fluent method source.name(args) with the very same argument "
             "objects (the piped build is recorded call by call and replayed as method calls); recorded notifications (inner observables "
-            "recursively, values and virtual times) and all source subscription logs must be equal; a fluent form that does not finish where the piped form did (wall watchdog) differs too. %d public mixin methods found by "
+            "recursively, values and virtual times) and all source subscription logs must be equal; a fluent form that does not finish where the piped form did (CPU-time watchdog) differs too. %d public mixin methods found by "
             "introspection; methods never exercised are listed in the evidence as uncovered. Distinct = (operators, root kinds); "
             "non-trivial = at least one fluent method used and one notification seen.") % len(FLUENT)
     assumptions = ["mostly seeded program/input generation; the simulated dimension is the shared virtual timeline",
@@ -112,17 +112,23 @@ class Prop:
         out = Outcome()
         used = []
         ops = catalog.ops_of(sc["program"])
-        t0 = time.time()
+        t0 = time.process_time()
         a = pipe.Run(sc)
-        ta = time.time() - t0
-        signal.setitimer(signal.ITIMER_REAL, self.run_wall)  # the fluent twin gets a full watchdog period of its own
-        try:
-            b = pipe.Run(sc, build=lambda w, node: build_fluent(w, node, used))
-        except Hang:
+        ta = time.process_time() - t0
+        b = None
+        for budget in (self.run_wall, 10 * self.run_wall):  # the fluent twin gets watchdog periods (CPU time) of its own; an expiry must repeat
+            core.arm_watchdog(budget)
+            used[:] = []
+            try:
+                b = pipe.Run(sc, build=lambda w, node: build_fluent(w, node, used))
+                break
+            except Hang:
+                continue
+        if b is None:
             if ta > self.run_wall / 10:
-                raise  # the piped form was slow as well: a generator problem, not a difference
+                raise Hang()  # the piped form was slow as well: a generator problem, not a difference
             out.digest = (tuple(ops), "hang")
-            out.bad("fluent-differs", "program=%s methods=%s: the fluent form did not finish within %.0fs of wall time, the piped form took %.2fs" % (
+            out.bad("fluent-differs", "program=%s methods=%s: the fluent form did not finish within %.0fs of CPU time, the piped form took %.2fs" % (
                 ops, [n for _, n in used], self.run_wall, ta))
             return out
         out.digest = (tuple(ops), a.rec.kinds())
